@@ -127,9 +127,29 @@ pub fn monitor(t: &Task, o: &SOutcome) -> Vec<(String, String)> {
             }
             // 4. never above the established target distance (stable topology)
             if t.ecmp.0 > 0 {
-                // with branches of different length the tracer's knowledge of the target's distance is
-                // reset whenever a router answers at or beyond it (DESIGN.md 5): clauses 4 and 5 are
-                // stated for a stable path / an unknown distance and are not judged here
+                // with branches of different length the path is not stable (clause 4 is not judged);
+                // the target's distance is KNOWN from the moment the target answers and UNKNOWN again
+                // once a router answers at or beyond that distance - while it is unknown the
+                // in-flight window (clause 5) holds as on any path
+                let mut known: Option<u8> = None;
+                for d in w.deliveries.iter().take(delivered_before.len()) {
+                    let Some(f) = d.for_send else { continue };
+                    if !d.first || w.sends[f].round != d.round {
+                        continue;
+                    }
+                    let ttl = w.sends[f].ttl;
+                    if d.is_target {
+                        known = Some(known.map_or(ttl, |k| k.min(ttl)));
+                    } else if known.is_some_and(|k| ttl >= k) {
+                        known = None;
+                    }
+                }
+                if known.is_none() {
+                    let farthest = this_round_first.iter().map(|d| w.sends[d.for_send.unwrap()].ttl).max().unwrap_or(t.first_ttl - 1);
+                    if u16::from(s.ttl) > u16::from(farthest) + u16::from(t.max_inflight) {
+                        bad.push(("inflight-window:distance-unknown-again".into(), format!("round {r}: ttl {} is more than max_inflight {} beyond the farthest answered hop {farthest}, and the target's distance is unknown (a router answered at or beyond the distance last established)", s.ttl, t.max_inflight)));
+                    }
+                }
             } else if let Some(d) = dstar_prev {
                 // responses of earlier rounds are final; within this round the minimum can only shrink
                 let d_now = delivered_before
